@@ -1471,7 +1471,7 @@ func c3Equals(c *Ctx, byType map[string][]fieldLit) {
 	// Path exploration with the receiver's FieldType fixed to each constant in turn (helpers inline): which
 	// comparison of the payload can be reached for that type?
 	nEq := 0
-	var badEq, badBytes, badDirected []string
+	var badEq, badBytes, badDirected, badDeepBytes []string
 	nPaths := 0
 	for _, k := range c.ConstsOfType(CorePath, ftNamed) {
 		kv, _ := ConstObjInt(k)
@@ -1527,6 +1527,13 @@ func c3Equals(c *Ctx, byType map[string][]fieldLit) {
 			}
 			if strings.Contains(sq, "DeepEqual") {
 				c3DeepTypes[tn] = true
+				// a []byte payload compared by reflect.DeepEqual: nil and empty slices come out different, although
+				// both are the same zero-length value to every encoder
+				for _, l := range byType[tn] {
+					if e, has := l.slots["Interface"]; has && TypeName(l.pk.TypesInfo.TypeOf(e)) == "[]byte" {
+						badDeepBytes = append(badDeepBytes, tn)
+					}
+				}
 			}
 			if strings.Contains(sq, "bytes.Equal") {
 				for _, l := range byType[tn] {
@@ -1540,6 +1547,7 @@ func c3Equals(c *Ctx, byType map[string][]fieldLit) {
 	badEq = uniqSorted(badEq)
 	c.Check(len(badDirected) == 0, "R3.7", fn.String(), "symmetric-relations-only", fn.Pos(), "Equals compares payloads with symmetric relations only (==, bytes.Equal, time.Equal, reflect.DeepEqual); a directed one (errors.Is unwraps only its first argument) makes a.Equals(b) differ from b.Equals(a): %v", uniqSorted(badDirected))
 	c.Check(len(badEq) == 0, "R3.7", fn.String(), "interface-eq-only-for-comparable-payloads", fn.Pos(), "over %d paths (FieldType fixed to each of its constants, helpers inline; %d reach a == on interface-carrying operands): such a == is reachable only for field types whose Interface payload has a comparable concrete static type; offending: %v (an uncomparable dynamic value makes == panic)", nPaths, nEq, badEq)
+	c.Check(len(badDeepBytes) == 0, "R3.7", fn.String(), "byte-payloads-by-content", fn.Pos(), "[]byte payloads are compared by content (bytes.Equal), not with reflect.DeepEqual, which tells a nil slice from an empty one: fields built from equal inputs must compare equal: %v", uniqSorted(badDeepBytes))
 	c.Check(len(badBytes) == 0, "R3.7", fn.String(), "bytes-equal-only-for-byte-payloads", fn.Pos(), "bytes.Equal is reached only for field types whose payload is []byte: %v", uniqSorted(badBytes))
 }
 
